@@ -53,6 +53,7 @@ def stepOp (st : HistState) (toks : List String) : Option (StepRes × Env) :=
   | ["not", a] => (regOf st a).bind (fun a => d (notM a env))
   | ["model", a] => (regOf st a).bind (fun a => d (modelM a env))
   | ["clean", a] => (regOf st a).bind (fun a => d (cleanM a env))
+  | ["keepone", a] => (regOf st a).bind (fun a => d (a, env))
   | ["ite", a, b, c] =>
     match regOf st a, regOf st b, regOf st c with
     | some x, some y, some z => d (iteM x y z env)
@@ -116,10 +117,17 @@ def runHistory (steps : List String) : Verdict := Id.run do
       let parts := (rhs.splitOn " # ").map (fun s => s.trimAscii.toString)
       match parts with
       | realDump :: realSize :: ptrok :: fresh :: chks =>
+        if realDump.startsWith "PANIC" then
+          return { modelOk := true, oracle := some s!"step {idx} ({lhs}): the operation panicked in the long-lived environment: {realDump}" }
         match stepOp st toks with
         | none => return Verdict.badLine s!"step {idx}: unreadable operation '{lhs}'"
         | some (res, env') =>
           st := { st with env := env' }
+          if toks.head? == some "keepone" then
+            -- all other handles are given up: the register file now holds copies of the kept one
+            match (toks.drop 1).head?.bind (regOf st) with
+            | some k => st := { st with regs := st.regs.map (fun _ => k) }
+            | none => pure ()
           -- oracle: what the implementation itself reported
           if ptrok != "1" then
             return { modelOk := true, oracle := some s!"step {idx} ({lhs}): a node reachable from the result is not the environment's shared node for its structure (or a leaf is missing)" }
